@@ -1,56 +1,91 @@
 ------------------------------ MODULE FlushScen ------------------------------
-(* Environment model for C25 (pattern S): TLC enumerates the application-level histories that     *)
-(* are run, with a crash injected at every durable operation, on the real SyncedPool              *)
+(* Environment model for C25 (pattern S): the application-level histories that are run, with a    *)
+(* crash injected at every durable operation of their last call, on the real SyncedPool           *)
 (* (Comp = "pool") and on the real flaggedproducer (Comp = "flagged").                            *)
-(*   ops: open d | put d k v (v = 0: delete) | drop d | flush id                                  *)
-(* Guards are those of the application calls of SyncedPool.tla / Flagged.tla: a database is       *)
-(* written and dropped only while open (and, in the pool, not queued for dropping), a dropped     *)
-(* database may be opened again.                                                                 *)
-(* Canonical = TRUE (pool): the overlay makes the order of calls between two flushes irrelevant   *)
-(* for the durable operations, so between two flushes the calls come in one fixed order           *)
-(* (per database: open, puts by key, drop) and a key is written at most once; a history is        *)
-(* complete at its MaxFlush-th flush.  Canonical = FALSE (flagged producer: every call is         *)
-(* durable at once): every order, complete at MaxOps calls.  Every crash point of a prefix of a   *)
-(* history is a crash point of the history, so only complete histories are emitted.              *)
+(*   calls: open d | put d k v (v = 0: delete) | bput d (a large value under every key, so that   *)
+(*          one flush of d spans several write batches) | drop d | flush id                       *)
+(* The model keeps, per database, what decides the durable operations of every later call:        *)
+(* open / queued for dropping / closed, existence on disk, durable contents, the volatile         *)
+(* overlay (pool), the dirty flag (flagged producer: set by a write and, in the protocol of       *)
+(* Flagged.tla, on the other open databases by a drop), and the contents at the last flush.       *)
+(* `ops` is the path by which TLC first reached the state; it is hidden from the VIEW, so the     *)
+(* state graph is the finite graph of these abstract states, explored completely (no bound on     *)
+(* the length of a history), and every transition of it is emitted once with the path to its      *)
+(* pre-state: the history is path + call, and the crash points are the durable operations of      *)
+(* the call (the crash points of the path are those of the transitions along it).                 *)
+(* Every drop/flush situation (dropped database dirty or clean x others dirty or clean x          *)
+(* contents at the last flush ...) is therefore covered by construction, not by sampling.         *)
+(* For the pool only flushes perform durable operations, so only flush transitions are emitted;   *)
+(* `cls` classifies the pre-state of a flush (used to stratify when a tier cannot run them all).  *)
 EXTENDS Integers, Sequences, FiniteSets, TLC, Json
 
-CONSTANTS Comp, DBSeq, KeySeq, Vals, MaxFlush, MaxDrops, MaxOps, Canonical
-VARIABLES ops, opened, queued, nfl, ndr, rank
-svars == <<ops, opened, queued, nfl, ndr, rank>>
+CONSTANTS Comp, DBSeq, KeySeq, PutKeys, Vals, Big, MaxFlush, MaxDrops, MaxBulk
+VARIABLES ops, st, nfl, ndr, nbulk, act
+svars == <<ops, st, nfl, ndr, nbulk, act>>
+View == <<st, nfl, ndr, nbulk>>
 
-NK == Len(KeySeq)
-Base(i) == (i - 1) * (NK + 2)
+DBs == {DBSeq[i] : i \in 1..Len(DBSeq)}
+Keys == {KeySeq[i] : i \in 1..Len(KeySeq)}
+U == -1
+Empty == [k \in Keys |-> 0]
+NoOvl == [k \in Keys |-> U]
+Closed == [mode |-> "closed", ex |-> FALSE, cont |-> Empty, ovl |-> NoOvl, dirty |-> FALSE, last |-> Empty]
 
-Init == ops = <<>> /\ opened = {} /\ queued = {} /\ nfl = 0 /\ ndr = 0 /\ rank = -1
+Init == ops = <<>> /\ st = [d \in DBs |-> Closed] /\ nfl = 0 /\ ndr = 0 /\ nbulk = 0 /\ act = [op |-> "init"]
 
-Room == Len(ops) < MaxOps
-Ordered(r) == IF Canonical THEN r > rank ELSE TRUE
+Do(a) == ops' = Append(ops, a) /\ act' = a
 
-Open(i) == /\ Room /\ DBSeq[i] \notin opened /\ Ordered(Base(i))
-           /\ ops' = Append(ops, [op |-> "open", db |-> DBSeq[i]])
-           /\ opened' = opened \cup {DBSeq[i]} /\ rank' = Base(i)
-           /\ UNCHANGED <<queued, nfl, ndr>>
-Put(i, j, v) == /\ Room /\ DBSeq[i] \in opened \ queued /\ Ordered(Base(i) + j)
-                /\ ops' = Append(ops, [op |-> "put", db |-> DBSeq[i], k |-> KeySeq[j], v |-> v])
-                /\ rank' = Base(i) + j
-                /\ UNCHANGED <<opened, queued, nfl, ndr>>
-Drop(i) == /\ Room /\ DBSeq[i] \in opened \ queued /\ ndr < MaxDrops /\ Ordered(Base(i) + NK + 1)
-           /\ ops' = Append(ops, [op |-> "drop", db |-> DBSeq[i]])
-           /\ IF Comp = "pool" THEN queued' = queued \cup {DBSeq[i]} /\ opened' = opened
-              ELSE opened' = opened \ {DBSeq[i]} /\ queued' = queued
-           /\ ndr' = ndr + 1 /\ rank' = Base(i) + NK + 1
-           /\ UNCHANGED nfl
-Flush == /\ Room /\ nfl < MaxFlush
-         /\ ops' = Append(ops, [op |-> "flush", id |-> nfl + 1])
-         /\ nfl' = nfl + 1 /\ opened' = opened \ queued /\ queued' = {} /\ rank' = -1
-         /\ UNCHANGED ndr
+Open(d) == /\ st[d].mode = "closed"
+           /\ st' = [st EXCEPT ![d].mode = "open", ![d].ovl = NoOvl, ![d].dirty = FALSE,
+                               ![d].ex = IF Comp = "flagged" THEN TRUE ELSE @]
+           /\ Do([op |-> "open", db |-> d]) /\ UNCHANGED <<nfl, ndr, nbulk>>
 
-\* a pool history ends with its last flush (later calls are volatile only)
-Complete == IF Canonical THEN nfl = MaxFlush ELSE Len(ops) = MaxOps
-Next == /\ ~Complete
-        /\ \/ \E i \in 1..Len(DBSeq) : Open(i) \/ Drop(i) \/ \E j \in 1..NK, v \in Vals \cup {0} : Put(i, j, v)
-           \/ Flush
+Put(d, k, v) == /\ st[d].mode = "open"
+                /\ st' = IF Comp = "pool" THEN [st EXCEPT ![d].ovl[k] = v]
+                         ELSE [st EXCEPT ![d].cont[k] = v, ![d].dirty = TRUE]
+                /\ Do([op |-> "put", db |-> d, k |-> k, v |-> v]) /\ UNCHANGED <<nfl, ndr, nbulk>>
+
+BPut(d) == /\ st[d].mode = "open" /\ nbulk < MaxBulk /\ Comp = "pool"
+           /\ st' = [st EXCEPT ![d].ovl = [k \in Keys |-> Big]]
+           /\ nbulk' = nbulk + 1
+           /\ Do([op |-> "bput", db |-> d, v |-> Big]) /\ UNCHANGED <<nfl, ndr>>
+
+Drop(d) == /\ st[d].mode = "open" /\ ndr < MaxDrops
+           /\ st' = IF Comp = "pool" THEN [st EXCEPT ![d].mode = "queued"]
+                    ELSE [x \in DBs |-> IF x = d THEN [Closed EXCEPT !.last = st[d].last]
+                                        ELSE IF st[x].mode = "open" THEN [st[x] EXCEPT !.dirty = TRUE] ELSE st[x]]
+           /\ ndr' = ndr + 1
+           /\ Do([op |-> "drop", db |-> d]) /\ UNCHANGED <<nfl, nbulk>>
+
+Merge(c, o) == [k \in Keys |-> IF o[k] = U THEN c[k] ELSE o[k]]
+Flush == /\ nfl < MaxFlush
+         /\ st' = [d \in DBs |->
+                     IF st[d].mode = "queued" THEN Closed
+                     ELSE IF st[d].mode = "open"
+                     THEN IF Comp = "pool"
+                          THEN [st[d] EXCEPT !.ex = TRUE, !.cont = Merge(st[d].cont, st[d].ovl), !.ovl = NoOvl,
+                                             !.last = Merge(st[d].cont, st[d].ovl)]
+                          ELSE [st[d] EXCEPT !.dirty = FALSE, !.last = st[d].cont]
+                     ELSE Closed]
+         /\ nfl' = nfl + 1
+         /\ Do([op |-> "flush", id |-> nfl + 1]) /\ UNCHANGED <<ndr, nbulk>>
+
+Next == \/ \E d \in DBs : Open(d) \/ Drop(d) \/ BPut(d) \/ \E k \in PutKeys, v \in Vals \cup {0} : Put(d, k, v)
+        \/ Flush
 Spec == Init /\ [][Next]_svars
 
-EmitScen == Complete => PrintT(<<"EDGE", ToJson([comp |-> Comp, ops |-> ops])>>)
+(* ---- classification of the pre-state of a transition ---- *)
+NonEmpty(c) == \E k \in Keys : c[k] # 0
+Kind(d) == LET s == st[d] IN
+  IF s.mode = "closed" THEN "c"
+  ELSE IF s.mode = "queued" THEN "Q" \o (IF s.ex THEN "E" ELSE "N") \o (IF NonEmpty(s.cont) THEN "n" ELSE "z")
+  ELSE (IF s.ex THEN "E" ELSE "N")
+       \o (IF \E k \in Keys : s.ovl[k] = Big THEN "b" ELSE IF \E k \in Keys : s.ovl[k] # U THEN "w" ELSE "e")
+       \o (IF NonEmpty(s.cont) THEN "n" ELSE "z") \o (IF s.dirty THEN "d" ELSE "k")
+RECURSIVE KindsFrom(_)
+KindsFrom(i) == IF i > Len(DBSeq) THEN "" ELSE Kind(DBSeq[i]) \o "." \o KindsFrom(i + 1)
+Cls == KindsFrom(1) \o "f" \o ToString(nfl)
+
+Durable(a) == IF Comp = "pool" THEN a.op = "flush" ELSE TRUE
+EmitEdge == Durable(act') => PrintT(<<"EDGE", ToJson([comp |-> Comp, ops |-> ops', last |-> Len(ops'), cls |-> Cls, call |-> act'.op])>>)
 =============================================================================
